@@ -560,6 +560,33 @@ def make_dest(maxlen):
     return fn
 
 
+# ------------------------------------------------------------------ O3f: the archive-relative name a container file provider derives from the path inside the container
+def container_relative_path(path):
+    """the relative_path the real ContainerFileProvider computes for `<engine> exec <id> cat <path>` (the other settings of the provider are not needed)"""
+    prov = object.__new__(SF.ContainerFileProvider)
+    prov.cmd = cat("/usr/bin/podman exec cid01 cat ", path)
+    prov._misc_settings()
+    return prov.relative_path
+
+
+def make_container_rel(maxlen):
+    def fn(en):
+        path = cat("/", sstr.fresh_str(en, "cpath", 1 + en.choice("plen", maxlen), "/.a"))      # absolute inside the container; any number of leading slashes
+        case = lambda mv: {"kind": "container_rel", "path": mv.str(path)}  # noqa
+        en.note_sample(case)
+        rel = container_relative_path(path)
+        root = "/out/data"
+        dst = dest_of("container_file", rel, None, root)
+        norm = symops._sympath().normpath(dst)
+        inside = f_or(f_eq(norm, root) if len(norm) == len(root) else False, f_startswith(norm, root + "/"))
+        # (net-upward '..' segments are the recorded finding of O3; here the path has none)
+        dots = sstr.f_contains(path, "..")
+        ok = f_or(dots, inside)
+        en.must_hold(ok if isinstance(ok, bool) else SBool(ok), "written-inside-output", case,
+                     detail="a file read from a container is persisted outside the output directory")
+    return fn
+
+
 # ------------------------------------------------------------------ O3c: save-as names as the factories normalise them
 SAVE_AS_FACTORIES = ["simple_file", "glob_file", "first_file", "foreach_collect", "simple_command", "command_with_args", "foreach_execute"]
 
@@ -725,6 +752,10 @@ def obligations(tier):
                    desc="the save-as name a spec declares, as normalised by each factory, joined by the serializers: the destination stays inside the output directory",
                    bounds={"factories": SAVE_AS_FACTORIES, "save_as": "1-%d symbolic chars over '/', 'a', 'b'" % (4 if thorough else 3)},
                    outside=["save-as names with '.' segments (a spec author's constant, not collected data)"], encoded=enc[12:] if len(enc) > 12 else enc, budget_s=300 if thorough else 100, replay="dest", check_sample=True),
+        Obligation("O3f-container-file-names", make_container_rel(4 if thorough else 3), ["written-inside-output"],
+                   desc="the archive-relative name the real ContainerFileProvider derives from an absolute path inside the container (any number of leading slashes), joined by its serializer: inside the output directory",
+                   bounds={"path": "'/' + 1-%d symbolic chars over / . a" % (4 if thorough else 3)}, outside=["paths with '..' segments (recorded finding of O3)"],
+                   encoded=[SF.ContainerFileProvider._misc_settings, SF.serialize_container_file_output], budget_s=200 if thorough else 60, replay="dest", check_sample=True),
         Obligation("O3d-raw-files", make_raw_persist(), ["written-inside-output"],
                    desc="raw files persisted by the real cp on a real scratch tree, reached directly or through symlinks: what is created is a regular file that really lives inside the output directory (finite exploration)",
                    bounds={"sources": RAW_KINDS, "save_as": [None, "dir/", "name"]}, outside=["cp itself"], encoded=[SF.RawFileProvider.write, SF.serialize_raw_file_provider], budget_s=60, replay="dest", check_sample=True),
@@ -815,6 +846,12 @@ def _native(case):
     if kind == "components":
         ran = run_components_denied(case["denied"], case["order"], case["stale"])
         return ["deny-listed component %s ran" % t for t in case["denied"] if t in ran] + ["component %s is not deny-listed but did not run" % t for t in ("A", "B") if t not in case["denied"] and t not in ran]
+    if kind == "container_rel":
+        rel = container_relative_path(case["path"])
+        norm = posixpath.normpath(dest_of("container_file", rel, None, "/out/data"))
+        if ".." in case["path"] or norm == "/out/data" or norm.startswith("/out/data/"):
+            return []
+        return ["the file %r of a container gets the archive-relative name %r: it is persisted at %s" % (case["path"], rel, norm)]
     if kind == "save_as":
         kept = factory_save_as(case["factory"], case["save_as"])
         k2 = "command" if "command" in case["factory"] or "execute" in case["factory"] else "text"
